@@ -12,6 +12,7 @@ import (
 	"math"
 	"net"
 	"os"
+	"strings"
 	"sync"
 	"testing"
 	"time"
@@ -132,7 +133,7 @@ func readWithin(a *adapter, buf []byte, d time.Duration) (int, error, bool) {
 	}
 }
 
-const ruleC10V = "rapid-drawn program on packetio.Buffer, a dpipe end or a Bridge endpoint with deadline/deadline.go yield-instrumented and on a virtual clock: a reader task (1..3 reads), a deadliner task (1..4 SetReadDeadline: zero | past | now+1,2,5 units | the year 9999, Unix(2^40), now + the largest Duration; a drawn subset issued only after a timer has fallen due since the previous call), an injector task (0..2 messages from the peer) and a clock task whose advances turn every due timer into a callback task; rapid-drawn schedule over every lock/channel operation of deadline.go; oracle: a read fails with a timeout only if some non-zero deadline that may have been in force during the call had passed when it returned; at quiescence no read is parked while the last deadline set is non-zero and has passed (all due callbacks have run); then, outside the session: a deadline one unit ahead is armed and made to pass - every parked read must be released and two further reads must time out although a message is waiting (expiry persists) - and after SetReadDeadline(zero) the next read returns that message; non-trivial = a deadline was changed while a timer callback was dispatched and not finished; distinct by hash of program + step trace"
+const ruleC10V = "rapid-drawn program on packetio.Buffer, a dpipe end or a Bridge endpoint with deadline/deadline.go yield-instrumented and on a virtual clock: a reader task (1..3 reads), a deadliner task (1..4 SetReadDeadline: zero | past | now+1,2,5 units | the year 9999, Unix(2^40), now + the largest Duration; a drawn subset issued only after a timer has fallen due since the previous call), an injector task (0..2 messages from the peer) and a clock task whose advances turn every due timer into a callback task; rapid-drawn schedule over every lock/channel operation of deadline.go; oracle: a read fails with a timeout only if some non-zero deadline that may have been in force during the call had passed when it returned; at quiescence no read is parked while the last deadline set is non-zero and has passed (all due callbacks have run); a read that was parked, with no message for it, when the last callback of a passed deadline completed must end in a timeout whatever is set afterwards; then, outside the session: a deadline one unit ahead is armed and made to pass - every parked read must be released and two further reads must time out although a message is waiting (expiry persists) - and after SetReadDeadline(zero) the next read returns that message; non-trivial = a deadline was changed while a timer callback was dispatched and not finished; distinct by hash of program + step trace"
 
 func TestC10VirtualDeadlines(t *testing.T) {
 	r := ev.New("C10", "virtual-deadlines", ruleC10V)
@@ -202,19 +203,23 @@ func TestC10VirtualDeadlines(t *testing.T) {
 		cbSpawned, clockDone := 0, false
 		injected := 0
 
+		setBusy, injectBusy, readsStarted := false, false, 0
 		doSet := func(to time.Time) {
 			mu.Lock()
 			st := tick()
+			setBusy = true
 			mu.Unlock()
 			_ = a.setRD(to)
 			mu.Lock()
 			sets = append(sets, setRec{st, tick(), to})
+			setBusy = false
 			mu.Unlock()
 		}
 		doRead := func() {
 			buf := make([]byte, 64)
 			mu.Lock()
 			st := tick()
+			readsStarted++
 			mu.Unlock()
 			n, err := a.read(buf)
 			now := clock.Now()
@@ -258,11 +263,16 @@ func TestC10VirtualDeadlines(t *testing.T) {
 			s.Go("injector", func() {
 				for i := 0; i < nInject; i++ {
 					s.Yield("injector:before")
-					if err := a.inject([]byte(fmt.Sprintf("msg-%d", i))); err == nil {
-						mu.Lock()
+					mu.Lock()
+					injectBusy = true
+					mu.Unlock()
+					err := a.inject([]byte(fmt.Sprintf("msg-%d", i)))
+					mu.Lock()
+					if err == nil {
 						injected++
-						mu.Unlock()
 					}
+					injectBusy = false
+					mu.Unlock()
 				}
 			})
 		}
@@ -284,10 +294,52 @@ func TestC10VirtualDeadlines(t *testing.T) {
 			clockDone = true
 			mu.Unlock()
 		})
+		// "A blocked read is released with a timeout error once its deadline passes": a Read that
+		// is parked, with no message for it, at the moment the last callback of a passed deadline
+		// completes has been woken by that deadline - it owes a timeout, whatever is set next.
+		owes := map[int]string{} // index of the read call -> why
+		wasParked, lastPicked := -1, ""
+		var readerTask *sched.Task
+		observe := func(ss *sched.Session, en []*sched.Task) {
+			if readerTask == nil {
+				for _, tk := range ss.Tasks() {
+					if tk.Name == "reader" {
+						readerTask = tk
+					}
+				}
+			}
+			mu.Lock()
+			defer mu.Unlock()
+			cbLeft := clock.Pending()
+			for _, tk := range ss.Tasks() {
+				if strings.HasPrefix(tk.Name, "cb") && tk.State() != sched.Finished {
+					cbLeft++
+				}
+			}
+			data := 0
+			for _, rd := range reads {
+				if rd.err == nil && rd.n > 0 {
+					data++
+				}
+			}
+			quietDeadline := !setBusy && !injectBusy && injected == data
+			last := sets[len(sets)-1].at
+			if strings.HasPrefix(lastPicked, "cb") && cbLeft == 0 && wasParked >= 0 && wasParked == readsStarted-1 && len(reads) == wasParked &&
+				quietDeadline && !last.IsZero() && !last.After(clock.Now()) {
+				owes[wasParked] = fmt.Sprintf("it was parked, with no message for it, when the last callback of the deadline %v completed at virtual time %v", last.Sub(vbase), clock.Offset())
+			}
+			wasParked = -1
+			if readerTask != nil && readerTask.State() == sched.Blocked && quietDeadline && readsStarted == len(reads)+1 {
+				wasParked = readsStarted - 1
+			}
+		}
 		var trace []string
 		s.Run(chooserF(func(ss *sched.Session, en []*sched.Task) *sched.Task {
+			observe(ss, en)
 			p := rc.Pick(ss, en)
+			lastPicked = ""
 			if p != nil {
+				lastPicked = p.Name
 				trace = append(trace, p.Name+"@"+p.Label())
 				if p.Name == "deadliner" {
 					for _, e := range en {
@@ -349,7 +401,20 @@ func TestC10VirtualDeadlines(t *testing.T) {
 			}
 		}
 		checkReads()
+		observe(s, nil)
 		mu.Lock()
+		for k, why := range owes {
+			c.Label("read-woken-by-its-deadline")
+			if k < len(reads) && isTimeout(reads[k].err) {
+				continue
+			}
+			got := "is still blocked"
+			if k < len(reads) {
+				got = fmt.Sprintf("returned n=%d err=%v", reads[k].n, reads[k].err)
+			}
+			mu.Unlock()
+			t.Fatalf("C10: %s: Read %d %s, but %s: a blocked read is released with a timeout error once its deadline passes\n%s", a.name, k, got, why, s.Describe())
+		}
 		last := sets[len(sets)-1].at
 		mu.Unlock()
 		passed := !last.IsZero() && !last.After(clock.Now())
